@@ -185,11 +185,18 @@ _TOK = re.compile(
 )
 
 
+_SCOPE = re.compile(r"\s*%\w+")
+
+
 def _tokens(s):
     pos = 0
     out = []
     s = s.strip()
     while pos < len(s):
+        ms = _SCOPE.match(s, pos)
+        if ms:  # a scope annotation after a closing parenthesis, e.g. `(-5)%Z`
+            pos = ms.end()
+            continue
         m = _TOK.match(s, pos)
         if not m:
             raise CoqParseError("cannot tokenise at %r" % s[pos:pos + 40])
